@@ -211,6 +211,29 @@ where
             };
         }
 
+        // The same invitation delivered again under a different wrapper id (gift wraps are
+        // re-published, relays deliver duplicates): it is the same welcome. Return the stored
+        // one as it is - its state (accepted / declined) must not regress to pending and
+        // nothing may be created or overwritten - and remember the new wrapper id.
+        if let Some(rumor_id) = rumor_event.id
+            && let Some(existing) = self
+                .storage()
+                .find_welcome_by_event_id(&rumor_id)
+                .map_err(|e| Error::Welcome(e.to_string()))?
+        {
+            let processed_welcome = welcome_types::ProcessedWelcome {
+                wrapper_event_id: *wrapper_event_id,
+                welcome_event_id: Some(rumor_id),
+                processed_at: Timestamp::now(),
+                state: welcome_types::ProcessedWelcomeState::Processed,
+                failure_reason: None,
+            };
+            self.storage()
+                .save_processed_welcome(processed_welcome)
+                .map_err(|e| Error::Welcome(e.to_string()))?;
+            return Ok(existing);
+        }
+
         let welcome_preview = self.preview_welcome(wrapper_event_id, rumor_event)?;
 
         // Create a pending group
